@@ -3,6 +3,7 @@ package sim
 import (
 	"fmt"
 	"math/rand"
+	"reflect"
 	"runtime"
 	"sort"
 	"strconv"
@@ -28,17 +29,37 @@ type Decision struct {
 	Point string `json:"p,omitempty"`
 }
 
-type section struct {
-	enter, exit string
-	owner       *Task
+type lockState struct {
+	writer  uint64 // goroutine holding it exclusively (0 = none)
+	readers int
 }
 
-// AddSection declares a critical section delimited by two yield points.
-func (s *Sim) AddSection(enter, exit string) {
+// lockWant is the argument of a task parked at an automatic "about to lock" yield.
+type lockWant struct {
+	m    any
+	mode string
+}
+
+type section struct {
+	enter, exit string
+	keyed       bool             // one instance of the section per yield argument (e.g. per service name)
+	owners      map[string]*Task // key ("" when not keyed) -> task inside
+}
+
+// AddSection declares a critical section delimited by two yield points: a real
+// mutex of the proxy that is held across yield points.
+func (s *Sim) AddSection(enter, exit string, keyed bool) {
 	if s.sections == nil {
 		s.sections = map[string]*section{}
 	}
-	s.sections[enter] = &section{enter: enter, exit: exit}
+	s.sections[enter] = &section{enter: enter, exit: exit, keyed: keyed, owners: map[string]*Task{}}
+}
+
+func (sec *section) key(arg any) string {
+	if !sec.keyed {
+		return ""
+	}
+	return fmt.Sprint(arg)
 }
 
 // Hold is a directed stall: the task, once parked at yield point At, is not
@@ -57,15 +78,15 @@ type Task struct {
 	held      bool
 	heldSince time.Duration
 	heldBase  int
-	name   string
-	kind   string // "actor", "bg" (background: health checks, conns), "repo"
-	wake   chan struct{}
-	point  string
-	arg    any
-	parked bool
-	done   bool
-	prio   int
-	hasPr  bool
+	name      string
+	kind      string // "actor", "bg" (background: health checks, conns), "repo"
+	wake      chan struct{}
+	point     string
+	arg       any
+	parked    bool
+	done      bool
+	prio      int
+	hasPr     bool
 }
 
 type SchedKnobs struct {
@@ -76,6 +97,7 @@ type SchedKnobs struct {
 	StallMax   int           `json:"stall_max,omitempty"`
 	StallDelta time.Duration `json:"stall_delta,omitempty"`
 	StallP     float64       `json:"stall_p,omitempty"`
+	AutoOff    bool          `json:"auto_off,omitempty"` // autoyield builds: lock acquisitions are not yield points in this run
 	MaxSteps   int           `json:"max_steps"`
 	MaxVirtual time.Duration `json:"max_virtual"`
 }
@@ -89,8 +111,13 @@ type Sim struct {
 	taken    map[int64]bool
 	pointN   map[string]int
 	Holds    int // holds that actually took effect
-	RealScale int // > 0: real-time mode outside a synctest bubble, all durations divided by this
-	Free     bool // uncontrolled mode: yield points do not park, the Go scheduler decides (race detector runs)
+	// lock tracking (autoyield builds): which real mutexes are held, and how
+	// many locks each goroutine holds
+	locks     map[any]*lockState
+	depth     map[uint64]int
+	AutoOff   bool // this run: lock acquisitions are tracked but are not yield points
+	RealScale int  // > 0: real-time mode outside a synctest bubble, all durations divided by this
+	Free      bool // uncontrolled mode: yield points do not park, the Go scheduler decides (race detector runs)
 	// critical sections of repo code that contain yield points (a real mutex
 	// held across yields): a task parked at the Enter point is not eligible
 	// while another task is inside the section. Keyed by Enter point.
@@ -112,8 +139,8 @@ type Sim struct {
 	start   time.Time
 	namer   func(point string, arg any) string
 	skip    func(point string, arg any) bool // yield points that must not park in the current state
-	onStep  func(t *Task) // called (scheduler goroutine) just before a task is released
-	onIdle  func() error  // invariant hook, called after every quiescence
+	onStep  func(t *Task)                    // called (scheduler goroutine) just before a task is released
+	onIdle  func() error                     // invariant hook, called after every quiescence
 	H       *History
 	Budget  string // non-empty when the run hit a step / virtual time budget
 	Diverge int    // replay decisions that could not be honoured
@@ -126,6 +153,8 @@ func NewSim(seed int64, knobs SchedKnobs, h *History) *Sim {
 		ordinals: map[string]int{},
 		taken:    map[int64]bool{},
 		pointN:   map[string]int{},
+		locks:    map[any]*lockState{},
+		depth:    map[uint64]int{},
 		arrival:  make(chan struct{}, 1),
 		disabled: map[string]bool{},
 		knobs:    knobs,
@@ -136,6 +165,7 @@ func NewSim(seed int64, knobs SchedKnobs, h *History) *Sim {
 	for _, p := range knobs.Disabled {
 		s.disabled[p] = true
 	}
+	s.AutoOff = knobs.AutoOff
 	s.start = time.Now()
 	s.active.Store(true)
 	if knobs.Policy == "pct" {
@@ -198,7 +228,9 @@ func (s *Sim) uniqueInstant(d time.Duration) time.Time {
 func (s *Sim) Sleep(d time.Duration) { time.Sleep(time.Until(s.uniqueInstant(d))) }
 
 // NewTimer is time.NewTimer on the harness grid.
-func (s *Sim) NewTimer(d time.Duration) *time.Timer { return time.NewTimer(time.Until(s.uniqueInstant(d))) }
+func (s *Sim) NewTimer(d time.Duration) *time.Timer {
+	return time.NewTimer(time.Until(s.uniqueInstant(d)))
+}
 
 // AfterFunc is time.AfterFunc on the harness grid.
 func (s *Sim) AfterFunc(d time.Duration, f func()) *time.Timer {
@@ -263,8 +295,10 @@ func (s *Sim) Go(name, kind string, fn func()) {
 			s.mu.Lock()
 			t.done = true
 			for _, sec := range s.sections {
-				if sec.owner == t {
-					sec.owner = nil
+				for k, o := range sec.owners {
+					if o == t {
+						delete(sec.owners, k)
+					}
 				}
 			}
 			delete(s.tasks, gid)
@@ -320,8 +354,12 @@ func (s *Sim) park(t *Task, point string, arg any) {
 	s.mu.Lock()
 	t.point, t.arg, t.parked = point, arg, true
 	for _, sec := range s.sections {
-		if sec.owner == t && point == sec.exit {
-			sec.owner = nil
+		if point == sec.exit {
+			for k, o := range sec.owners {
+				if o == t && k == sec.key(arg) {
+					delete(sec.owners, k)
+				}
+			}
 		}
 	}
 	if h := t.hold; h != nil && h.At == point {
@@ -335,6 +373,103 @@ func (s *Sim) park(t *Task, point string, arg any) {
 	s.mu.Unlock()
 	s.notify()
 	<-t.wake
+}
+
+const lockHeldPoint = "lock@held"
+
+// LockHook is installed as server.SimLockHook in autoyield builds.
+func (s *Sim) LockHook(kind string, m any, mode string, site string) {
+	if s.Free || !s.active.Load() {
+		return
+	}
+	gid := curGID()
+	m = lockKey(m)
+	switch kind {
+	case "pre":
+		s.mu.Lock()
+		nested := s.depth[gid] > 0
+		busy := !s.lockFreeLocked(m, mode, gid)
+		s.mu.Unlock()
+		if nested || s.AutoOff {
+			// No yield while holding another lock, or when automatic yields are
+			// switched off for this run. If the mutex is held (by a task parked
+			// inside its critical section: the per-service deploy lock and the
+			// snapshot lock are held across yield points; or by a goroutine that
+			// runs in this very step), wait as a parked task rather than in a
+			// real Lock(), which would keep the bubble from becoming quiescent.
+			// The scheduler lets such a waiter continue, without a decision, a
+			// tick or a trace entry, at the first quiescent point at which the
+			// mutex is free: exactly what the mutex itself would have done, so
+			// the step structure does not depend on who won the race inside a
+			// step. Lock-order cycles leave the waiters parked for good; the run
+			// then ends on its budget with commands that never returned.
+			if busy && !s.disabled[lockHeldPoint] {
+				s.mu.Lock()
+				t := s.tasks[gid]
+				if t == nil {
+					// not a task yet: wait under a throw-away identity, so that the
+					// name this goroutine gets at its first real yield point does
+					// not depend on whether it had to wait here
+					t = &Task{name: fmt.Sprintf("~%020d", gid), kind: "repo", wake: make(chan struct{})}
+				}
+				s.mu.Unlock()
+				s.park(t, lockHeldPoint, lockWant{m: m, mode: mode})
+			}
+			return
+		}
+		s.Hook("lock@"+site, lockWant{m: m, mode: mode})
+	case "acq":
+		s.mu.Lock()
+		s.depth[gid]++
+		ls := s.locks[m]
+		if ls == nil {
+			ls = &lockState{}
+			s.locks[m] = ls
+		}
+		if mode == "W" {
+			ls.writer = gid
+		} else {
+			ls.readers++
+		}
+		s.mu.Unlock()
+	case "rel":
+		s.mu.Lock()
+		if s.depth[gid] > 0 {
+			s.depth[gid]--
+		}
+		if ls := s.locks[m]; ls != nil {
+			if mode == "W" {
+				ls.writer = 0
+			} else if ls.readers > 0 {
+				ls.readers--
+			}
+		}
+		s.mu.Unlock()
+	}
+}
+
+// lockKey turns the instrumented operand (&x where x is a mutex, or where x is
+// itself a pointer to one) into the address of the mutex.
+func lockKey(m any) any {
+	v := reflect.ValueOf(m)
+	for v.Kind() == reflect.Ptr && !v.IsNil() && v.Elem().Kind() == reflect.Ptr {
+		v = v.Elem()
+	}
+	if v.Kind() == reflect.Ptr {
+		return v.Pointer()
+	}
+	return m
+}
+
+func (s *Sim) lockFreeLocked(m any, mode string, gid uint64) bool {
+	ls := s.locks[m]
+	if ls == nil {
+		return true
+	}
+	if ls.writer != 0 && ls.writer != gid {
+		return false
+	}
+	return mode == "R" || ls.readers == 0
 }
 
 // SetHold arms a hold for the calling goroutine's task (one shot).
@@ -363,8 +498,16 @@ func (s *Sim) eligible(parked []*Task) ([]*Task, time.Duration) {
 	minLeft := time.Duration(0)
 	now := s.Now()
 	for _, t := range parked {
-		if sec := s.sections[t.point]; sec != nil && sec.owner != nil && sec.owner != t {
-			continue // someone is inside the critical section this task wants to enter
+		if t.point == lockHeldPoint {
+			continue // continues by itself once the mutex is free (releaseLockWaiter)
+		}
+		if sec := s.sections[t.point]; sec != nil {
+			if o := sec.owners[sec.key(t.arg)]; o != nil && o != t {
+				continue // someone is inside the critical section this task wants to enter
+			}
+		}
+		if lw, ok := t.arg.(lockWant); ok && !s.lockFreeLocked(lw.m, lw.mode, 0) {
+			continue // the mutex this task is about to take is held: releasing it would block a goroutine on a real lock
 		}
 		if t.held && t.holdInfo != nil {
 			h := t.holdInfo
@@ -428,6 +571,9 @@ func (s *Sim) Run() error {
 	defer s.Stop()
 	for {
 		synctest.Wait()
+		for s.releaseLockWaiter() {
+			synctest.Wait()
+		}
 		if s.onIdle != nil {
 			if err := s.onIdle(); err != nil {
 				return err
@@ -456,6 +602,9 @@ func (s *Sim) Run() error {
 			select {
 			case <-s.arrival:
 			default:
+			}
+			if holdLeft <= 0 {
+				holdLeft = time.Hour // blocked on a lock held by a task that is itself waiting: wait for whatever happens next
 			}
 			timer := s.NewTimer(holdLeft)
 			select {
@@ -494,7 +643,7 @@ func (s *Sim) Run() error {
 		s.mu.Lock()
 		s.pointN[choice.point]++
 		if sec := s.sections[choice.point]; sec != nil {
-			sec.owner = choice
+			sec.owners[sec.key(choice.arg)] = choice
 		}
 		s.mu.Unlock()
 		s.last = choice
@@ -503,6 +652,30 @@ func (s *Sim) Run() error {
 		}
 		choice.wake <- struct{}{}
 	}
+}
+
+// releaseLockWaiter lets the lowest-named task that waits (invisibly, see
+// LockHook) for a mutex that is now free continue. It reports whether it
+// released one.
+func (s *Sim) releaseLockWaiter() bool {
+	s.mu.Lock()
+	var pick *Task
+	for _, t := range s.parked {
+		if t.point != lockHeldPoint {
+			continue
+		}
+		lw := t.arg.(lockWant)
+		if s.lockFreeLocked(lw.m, lw.mode, 0) && (pick == nil || t.name < pick.name) {
+			pick = t
+		}
+	}
+	s.mu.Unlock()
+	if pick == nil {
+		return false
+	}
+	s.unpark(pick)
+	pick.wake <- struct{}{}
+	return true
 }
 
 // Stop turns every yield point into a no-op and releases all parked tasks.
